@@ -49,10 +49,13 @@ def ob_graph(ctx):
         return [supper_code(c, h) for c in codes(x, k)]
 
     def rec(i, data):
+        if P.get("same_ids"):
+            # record ids are not part of the overhang graph: every input carries Biopython's default id
+            return st.record.CircularRecord(st.Seq(data))
         return st.record.CircularRecord(st.Seq(data), id="m%d" % i if i >= 0 else "vec")
 
     mods = [Mod(rec(i, "ACGT"), st.Seq(starts[i]), st.Seq(ends[i]),
-                (lambda i=i: st.SeqRecord(st.Seq(starts[i] + MARK[i]), id="m%d" % i))) for i in range(m)]
+                (lambda i=i: st.SeqRecord(st.Seq(starts[i] + MARK[i]), id="<unknown id>" if P.get("same_ids") else "m%d" % i))) for i in range(m)]
     vec = Vec(rec(-1, "ACGT"), st.Seq(up), st.Seq(down), lambda: st.SeqRecord(st.Seq(up + "TTTT"), id="vec"))
     out = run_assemble(st, vec, mods)
     ctx.observe("kind", out["kind"])
@@ -121,6 +124,9 @@ def obligations(tier, seed):
             exp = ["InvalidSequence", "MissingModule", "product", "DuplicateModules"] if (m >= 1) else []
             obs.append(Ob("overhang graph m=%d overhang=%dnt order=%s" % (m, k, perm), ob_graph,
                           dict(m=m, k=k, perm=perm), samples=12, cost=6 ** m * k, expect_witness=exp))
+            if perm == "rot" and k == 2 and 2 <= m <= tier_pick(tier, 3, 4):
+                obs.append(Ob("overhang graph m=%d overhang=%dnt all records share one id" % (m, k), ob_graph,
+                              dict(m=m, k=k, perm=perm, same_ids=True), samples=12, cost=6 ** m * k, expect_witness=exp))
             if perm == "rot" and k == 2 and m <= tier_pick(tier, 2, 3):
                 obs.append(Ob("overhang graph m=%d overhang=%dnt mixed-case letters" % (m, k), ob_graph,
                               dict(m=m, k=k, perm=perm, alphabet="ACGTacgt"), samples=12, cost=12 ** m * k, expect_witness=exp))
